@@ -11,6 +11,7 @@ from engine.model import src, stmt_key, dotted, walk_no_nested
 from engine.util import own_nodes, calls_with_nodes, where
 
 RULES = {
+    "R-19.14": "a node is never false: copy-on-write results are tested by truth value (`cloned = node.maybe_cow(creator)` / `if cloned:`), so dns.btree._Node defines neither __len__ nor __bool__ - with a __len__ a cloned node holding no keys (the root of an empty tree) is falsy, its private copy is thrown away and the insert goes into the node shared with the frozen original",
     "R-19.13": "a frozen tree rejects every mutation, also one that would change nothing: every BTree / BTreeDict / BTreeSet method that (transitively) calls a tree-changing method reaches _check_mutable_and_park() - directly or through that call - on every path to a normal return; no early return (a miss, an empty tree) comes first",
     "R-19.12": "the cursor descends to a LEAF: every step `self.current_node = self.current_node.children[...]` sits in a `while` loop (one `if` would stop one level down, which only shows on trees of three or more levels)",
     "R-19.11": "balance() merges only when no steal happened: the boolean result of every try_left_steal / try_right_steal call decides control flow (tested directly, or bound to a name that is tested) - a steal whose result is discarded is followed by a merge that overfills the node; and __copy__ of a tree always builds a new copy-on-write clone (`self.__class__(original=self)`), it never hands back the tree itself",
@@ -418,6 +419,21 @@ def run(model, rep, tier):
         rep.check(bool(rets11) and len(good11) == len(rets11), "R-19.11", cq, where(fc11, next((r for r in rets11 if r not in good11), fc11.node)), "__copy__ always returns a fresh clone",
                   f"`{src(next((r for r in rets11 if r not in good11), fc11.node))[:40]}`: copy.copy() of a tree can return the tree itself - two 'copies' are one object (not isolated), and a copy of a frozen tree refuses every mutation",
                   stmt="copy-is-a-clone")
+    # ---------------------------------------------------------------- R-19.14
+    truth14 = 0
+    for f14 in model.all_functions():
+        if f14.module.name != "dns.btree":
+            continue
+        cow14 = {t_.id for x in ast.walk(f14.node) if isinstance(x, ast.Assign) and isinstance(x.value, ast.Call) and isinstance(x.value.func, ast.Attribute) and x.value.func.attr in ("maybe_cow", "maybe_cow_child")
+                 for t_ in x.targets if isinstance(t_, ast.Name)}
+        for nd in ast.walk(f14.node):
+            if isinstance(nd, (ast.If, ast.While)) and any(a_[0] in cow14 and a_[1] in ("truthy", "falsy") for a_ in atoms(normalise_compare(nd.test))):
+                truth14 += 1
+    falsy14 = [mn for mn in ("__len__", "__bool__") if mn in node.methods]
+    rep.check(not (truth14 and falsy14), "R-19.14", NODE, node.file, f"{truth14} truth tests of copy-on-write results; _Node has no __len__/__bool__",
+              f"_Node defines {falsy14} while {truth14} sites test a maybe_cow() result by truth value: a cloned node with no keys is falsy, so the clone is discarded and the shared node is written (an insert into a clone of a frozen empty tree shows up in the original)",
+              stmt="node-truthiness")
+    rep.floor("R-19.14", truth14, 2)
     # ---------------------------------------------------------------- R-19.12
     n_desc = 0
     for f12 in sorted(model.all_functions(), key=lambda g: g.qualname):
@@ -629,6 +645,8 @@ def _root_owned(cfg, at):
 
 
 WITNESSES = [
+    {"id": "c19-node-len-makes-empty-clone-falsy", "rule": "R-19.14", "file": "dns/btree.py", "expect": "fires",
+     "old": "    def is_maximal(self) -> bool:", "new": "    def __len__(self) -> int:\n        return len(self.elts)\n\n    def is_maximal(self) -> bool:"},
     {"id": "c19-cursor-exit-swallows", "rule": "R-19.13", "file": "dns/btree.py", "expect": "fires",
      "old": "        self.btree.deregister_cursor(self)\n        return False", "new": "        self.btree.deregister_cursor(self)\n        return True"},
     {"id": "c19-seek-descends-one-level", "rule": "R-19.12", "file": "dns/btree.py", "expect": "fires",
